@@ -16,6 +16,9 @@ use serde_json::Value;
 fn replay_case(prop: &str, case: &Value) -> Vec<Violation> {
     match case["engine"].as_str().unwrap_or("") {
         "tok" => props::tok::replay(prop, case),
+        "pair" => props::pair::replay(case),
+        "doc" => props::doc::replay(prop, case),
+        "tag" | "tag-opaque" => props::tag::replay(case),
         other => {
             eprintln!("MACHINERY: unknown replay engine {other:?}");
             vec![]
@@ -66,6 +69,11 @@ fn main() {
     let r = Report::new(prop, tier);
     match prop {
         "C07" | "C08" => props::tok::run(&r, prop),
+        "C01" | "C02" | "C03" | "C04" | "C14" => {
+            props::doc::run(&r, props::doc::P::parse(prop).unwrap())
+        }
+        "C09" => props::tag::run(&r),
+        "C10" => props::pair::run(&r),
         _ => {
             eprintln!("no engine for property {prop}");
             std::process::exit(2);
